@@ -115,7 +115,16 @@ _FLOAT_FMT = {"<f": (4, "little"), ">f": (4, "big"), "<d": (8, "little"), ">d": 
               "f": (4, "little"), "d": (8, "little")}
 
 
+_INT_FMT = {"b": (1, True), "B": (1, False), "h": (2, True), "H": (2, False), "i": (4, True), "I": (4, False),
+            "l": (4, True), "L": (4, False), "q": (8, True), "Q": (8, False)}
+_sym_int_pack = None   # set by install(): (fmt, value) -> symbolic bytes or None
+
+
 def m_pack(fmt, *args):
+    if _sym_int_pack is not None and len(args) == 1 and type(fmt) is str and len(fmt) == 2 and fmt[0] in "<>" and fmt[1] in _INT_FMT:
+        r = _sym_int_pack(fmt, args[0])
+        if r is not None:
+            return r
     spec = _FLOAT_FMT.get(fmt)
     if spec is not None and len(args) == 1:
         n, order = spec
@@ -123,6 +132,10 @@ def m_pack(fmt, *args):
         if isinstance(a, F32):
             if a.width != n:
                 raise _struct.error("float width mismatch (model)")
+            if _sym_int_pack is not None:
+                r = _sym_int_pack(("<" if order == "little" else ">") + ("I" if n == 4 else "Q"), a.bits)
+                if r is not None:
+                    return r
             return a.bits.to_bytes(n, order)
         if not isinstance(a, (int, float)) or isinstance(a, bool) and False:
             raise _struct.error("required argument is not a float")
@@ -139,6 +152,77 @@ def m_unpack(fmt, data):
         return ((F32 if n == 4 else F64)(bits),)
     return _struct.unpack(fmt, data)
 
+
+
+# --------------------------------------------------------------------------- utf-16-le / utf-32-le models
+def utf16le_encode_units(cps):
+    """code points -> (byte ints, index of first bad char or None, reason)"""
+    out = []
+    for idx, cp in enumerate(cps):
+        if cp < 0xD800:
+            out += [cp % 256, cp // 256]
+        elif cp < 0xE000:
+            return out, idx, "surrogates not allowed"
+        elif cp < 0x10000:
+            out += [cp % 256, cp // 256]
+        else:
+            v = cp - 0x10000
+            hi = 0xD800 + v // 1024
+            lo = 0xDC00 + v % 1024
+            out += [hi % 256, hi // 256, lo % 256, lo // 256]
+    return out, None, ""
+
+
+def utf16le_decode_units(bs):
+    """byte ints -> (code points, index of error or None, reason)"""
+    cps = []
+    i = 0
+    n = len(bs)
+    while i < n:
+        if i + 1 >= n:
+            return cps, i, "truncated data"
+        u = bs[i] + 256 * bs[i + 1]
+        if u < 0xD800 or u >= 0xE000:
+            cps.append(u)
+            i += 2
+        elif u < 0xDC00:
+            if i + 3 >= n:
+                return cps, i, "unexpected end of data"
+            u2 = bs[i + 2] + 256 * bs[i + 3]
+            if 0xDC00 <= u2 < 0xE000:
+                cps.append(0x10000 + (u - 0xD800) * 1024 + (u2 - 0xDC00))
+                i += 4
+            else:
+                return cps, i, "illegal UTF-16 surrogate"
+        else:
+            return cps, i, "illegal encoding"
+    return cps, None, ""
+
+
+def utf32le_encode_units(cps):
+    out = []
+    for idx, cp in enumerate(cps):
+        if 0xD800 <= cp < 0xE000:
+            return out, idx, "surrogates not allowed"
+        out += [cp % 256, (cp // 256) % 256, (cp // 65536) % 256, cp // 16777216]
+    return out, None, ""
+
+
+def utf32le_decode_units(bs):
+    cps = []
+    i = 0
+    n = len(bs)
+    while i < n:
+        if i + 3 >= n:
+            return cps, i, "truncated data"
+        u = bs[i] + 256 * bs[i + 1] + 65536 * bs[i + 2] + 16777216 * bs[i + 3]
+        if 0xD800 <= u < 0xE000:
+            return cps, i, "code point in surrogate code point range(0xd800, 0xe000)"
+        if u >= 0x110000:
+            return cps, i, "code point not in range(0x110000)"
+        cps.append(u)
+        i += 4
+    return cps, None, ""
 
 # --------------------------------------------------------------------------- installation
 _installed = False
@@ -172,7 +256,7 @@ def install():
     from crosshair.tracers import NoTracing, ResumedTracing
     from crosshair.libimpl import builtinslib as _bl
     from crosshair.libimpl.builtinslib import (SymbolicInt, LazyIntSymbolicStr, AnySymbolicStr,
-                                                SymbolicByteArray)
+                                                SymbolicByteArray, SymbolicBytes)
     import z3 as _z3
 
     logging.disable(logging.CRITICAL)
@@ -189,8 +273,42 @@ def install():
     _pu.print_bytes_msg = lambda msg: "<packet>"
     _note("reprlib.repr / data_types._repr / PacketLazyFormatter.__str__ -> constant string")
 
+    # ---- integer pack: fresh byte variables tied to the value by ONE linear constraint
+    # (v == sum b_i * 256^i, 0 <= b_i < 256; the decomposition is unique) instead of n div/mod
+    # terms -- keeps 8-byte round trips inside linear integer arithmetic.
+    from crosshair.statespace import context_statespace
+
+    def _int_pack(fmt, v):
+        with NoTracing():
+            if not isinstance(v, SymbolicInt):
+                return None
+        n, signed = _INT_FMT[fmt[1]]
+        M = 1 << (8 * n)
+        if signed:
+            if v < -(M >> 1) or v >= (M >> 1):
+                raise _struct.error("argument out of range")
+        else:
+            if v < 0 or v >= M:
+                raise _struct.error("argument out of range")
+        with NoTracing():
+            space = context_statespace()
+            tag = space.uniq()
+            bs = [_z3.Int(f"pk{tag}_{i}") for i in range(n)]
+            for b in bs:
+                space.add(_z3.And(b >= 0, b < 256))
+            total = _z3.Sum([bs[i] * (1 << (8 * i)) for i in range(n)])
+            u = _z3.If(v.var < 0, v.var + M, v.var) if signed else v.var
+            space.add(total == u)
+            ints = [SymbolicInt(b) for b in bs]
+            if fmt[0] == ">":
+                ints.reverse()
+            return SymbolicBytes(ints)
+
+    global _sym_int_pack
+    _sym_int_pack = _int_pack
     _dt.pack = m_pack
     _dt.unpack = m_unpack
+    _note("struct.pack of a symbolic int -> n fresh byte variables with v == sum b_i*256^i (unique decomposition), range check as struct.error")
     _note("struct.pack/unpack f,d -> float tokens F32/F64(bits) (C float conversion trusted); ints via CrossHair structlib")
 
     # ---- format()
@@ -356,6 +474,44 @@ def install():
     _core._PATCH_REGISTRATIONS[any] = _any
     _note("all/any -> forking loops returning real bools")
 
+
+    # ---- utf-16-le / utf-32-le symbolic codecs (CrossHair ships ascii, latin-1, utf-8 only)
+    import codecs as _codecs
+    from crosshair.libimpl.encodings._encutil import StemEncoder, MidChunkError
+
+    def _mk_stem(name, enc_units, dec_units):
+        class _Stem(StemEncoder):
+            encoding_name = name
+
+            @classmethod
+            def _encode_chunk(cls, string, start):
+                cps = [ord(string[i]) for i in range(start, len(string))]
+                out, bad, reason = enc_units(cps)
+                if bad is None:
+                    return (SymbolicBytes(out), len(string), None)
+                return (SymbolicBytes(out), start + bad, MidChunkError(reason))
+
+            @classmethod
+            def _decode_chunk(cls, byts, start):
+                bs = [byts[i] for i in range(start, len(byts))]
+                cps, bad, reason = dec_units(bs)
+                text = "".join([chr(c) for c in cps])
+                if bad is None:
+                    return (text, len(byts), None)
+                return (text, start + bad, MidChunkError(reason))
+        return _Stem.getregentry()
+
+    _my_codecs = {
+        "crosshair_utf_16_le": _mk_stem("utf-16-le", utf16le_encode_units, utf16le_decode_units),
+        "crosshair_utf_32_le": _mk_stem("utf-32-le", utf32le_encode_units, utf32le_decode_units),
+    }
+
+    def _search(name):
+        return _my_codecs.get(name.replace("-", "_"))
+
+    _codecs.register(_search)
+    _note("str.encode/bytes.decode utf-16-le, utf-32-le -> arithmetic code-unit models (surrogate pairs, truncation and range errors as the C codecs)")
+
     import pycomm3.cip_driver as _cd
     _cd.urandom = lambda n: bytes([0x5A] * n)
     _note("os.urandom (cip_driver) -> fixed bytes")
@@ -414,6 +570,34 @@ def selftest():
             fails.append("C short float unpack accepted?")
         except _struct.error:
             pass
+    # utf-16/32 models vs the C codecs
+    samples = ["", "a", "ab", "\xe9\xff", "\u20ac\ud7ff\ue000\uffff", "\U00010000\U0010ffffz", "x\ud800", "\udfffy"]
+    samples += ["".join(chr(rnd.choice([rnd.randrange(0, 0xD800), rnd.randrange(0xE000, 0x110000)])) for _ in range(rnd.randrange(1, 5))) for _ in range(200)]
+    for text in samples:
+        for enc, eu, du in (("utf-16-le", utf16le_encode_units, utf16le_decode_units), ("utf-32-le", utf32le_encode_units, utf32le_decode_units)):
+            n += 1
+            out, bad, _ = eu([ord(c) for c in text])
+            try:
+                real = text.encode(enc)
+                if bad is not None or bytes(out) != real:
+                    fails.append(f"{enc} encode {text!r}")
+            except UnicodeEncodeError as e:
+                if bad != e.start:
+                    fails.append(f"{enc} encode error position {text!r}")
+    for _ in range(600):
+        bs = bytes(rnd.randrange(256) for _ in range(rnd.randrange(0, 9)))
+        if rnd.random() < 0.5 and len(bs) >= 2:
+            bs = bs[:1] + bytes([rnd.choice([0xD8, 0xDB, 0xDC, 0xDF, 0x00])]) + bs[2:]
+        for enc, du in (("utf-16-le", utf16le_decode_units), ("utf-32-le", utf32le_decode_units)):
+            n += 1
+            cps, bad, _ = du(list(bs))
+            try:
+                real = bs.decode(enc)
+                if bad is not None or "".join(map(chr, cps)) != real:
+                    fails.append(f"{enc} decode {bs!r}")
+            except UnicodeDecodeError as e:
+                if bad is None or bad != e.start:
+                    fails.append(f"{enc} decode error position {bs!r}: model {bad} real {e.start}")
     # hex digit model / format specs
     for v in list(range(0, 300)) + [rnd.randrange(1 << 32) for _ in range(300)]:
         for spec in ("x", "0>2x", "08x", "0>4x", "02x"):
